@@ -9,10 +9,7 @@ use vcommon::{arg_list_u64, arg_or, for_each_payload, open_input, Summary};
 
 use crate::model::*;
 
-const N: usize = 2;
-type Set = OrSWotSet<N>;
-
-fn apply_one(set: &mut Set, src: usize, k: u64, ts: HLCTimestamp, del: bool) -> bool {
+fn apply_one<const N: usize>(set: &mut OrSWotSet<N>, src: usize, k: u64, ts: HLCTimestamp, del: bool) -> bool {
     if del {
         set.delete_with_source(src, k, ts)
     } else {
@@ -21,7 +18,7 @@ fn apply_one(set: &mut Set, src: usize, k: u64, ts: HLCTimestamp, del: bool) -> 
 }
 
 /// What the keyspace actor does with a batch: will_apply filter on the pre-state, sort by stamp, apply.
-fn apply_batch(set: &mut Set, src: usize, items: &[(u64, HLCTimestamp)], del: bool) {
+fn apply_batch<const N: usize>(set: &mut OrSWotSet<N>, src: usize, items: &[(u64, HLCTimestamp)], del: bool) {
     let mut valid: Vec<(u64, HLCTimestamp)> =
         items.iter().filter(|(k, ts)| set.will_apply(*k, *ts)).cloned().collect();
     valid.sort_by_key(|e| e.1);
@@ -30,7 +27,7 @@ fn apply_batch(set: &mut Set, src: usize, items: &[(u64, HLCTimestamp)], del: bo
     }
 }
 
-fn apply_diff(set: &Set, peer: &Set, src: usize, removals_first: bool) -> Set {
+fn apply_diff<const N: usize>(set: &OrSWotSet<N>, peer: &OrSWotSet<N>, src: usize, removals_first: bool) -> OrSWotSet<N> {
     let mut out = set.clone();
     let (changes, removals) = set.diff(peer);
     if removals_first {
@@ -43,7 +40,7 @@ fn apply_diff(set: &Set, peer: &Set, src: usize, removals_first: bool) -> Set {
     out
 }
 
-fn merged(a: &Set, b: &Set) -> Set {
+fn merged<const N: usize>(a: &OrSWotSet<N>, b: &OrSWotSet<N>) -> OrSWotSet<N> {
     let mut m = a.clone();
     m.merge(b.clone());
     m
@@ -66,18 +63,38 @@ fn canon_diff(v: &Value) -> Value {
 }
 
 pub fn main() {
+    // the number of sources of the sets under test (OrSWotSet<1> has no second source to wait for)
+    match arg_or("--sources", "2").as_str() {
+        "1" => run::<1>(),
+        _ => run::<2>(),
+    }
+}
+
+fn run<const N: usize>() {
     let f: u64 = arg_or("--f", "2").parse().unwrap();
     let scale = Scale::from_f(f);
     let keys = arg_list_u64("--keys", "1,2");
     let repair_src: usize = arg_or("--repair-src", "1").parse().unwrap();
+    // the stamps of the universe (for C08's 'still refused' probes)
+    // C08 runs: only the purge facts are judged, the merge / difference laws are C03's and C05's business
+    let no_laws = vcommon::arg("--no-laws").is_some();
+    let times = arg_list_u64("--times", "");
+    let nodes = arg_list_u64("--nodes", "");
+    let universe: Vec<HLCTimestamp> = times.iter().flat_map(|t| nodes.iter().map(move |n| (*t, *n)))
+        .map(|(t, n)| scale.ts(&json!([t, 0, n])).unwrap()).collect();
+    // per state and replica: the newest delete of each node the REAL replica purged on the way there
+    type Pm = Vec<std::collections::BTreeMap<u8, HLCTimestamp>>;
+    let mut real_pm: HashMap<String, Pm> = HashMap::new();
+    let mut cur_pm: Pm = vec![];
+    let (mut purge_edges, mut effective_purges, mut refused_probes) = (0u64, 0u64, 0u64);
     let out = arg_or("--out", "-");
     let reader = open_input(&arg_or("--input", "-"));
     let passthrough = vcommon::arg("--passthrough");
 
     let mut sum = Summary::default();
-    let mut states: HashMap<String, Vec<Set>> = HashMap::new();
+    let mut states: HashMap<String, Vec<OrSWotSet<N>>> = HashMap::new();
     let mut parents: HashMap<String, (String, Value)> = HashMap::new();
-    let mut cur: Option<Vec<Set>> = None;
+    let mut cur: Option<Vec<OrSWotSet<N>>> = None;
     let mut cur_key = String::new();
     let mut missing_from = 0u64;
     let mut law_evals = 0u64;
@@ -89,9 +106,10 @@ pub fn main() {
             let key = e["from"].to_string();
             if states.is_empty() {
                 let n = e["from"]["rep"].as_array().map(|a| a.len()).unwrap_or(0);
-                states.insert(key.clone(), vec![Set::default(); n]);
+                states.insert(key.clone(), vec![OrSWotSet::<N>::default(); n]);
             }
             cur = states.get(&key).cloned();
+            cur_pm = real_pm.get(&key).cloned().unwrap_or_else(|| vec![Default::default(); cur.as_ref().map(|c| c.len()).unwrap_or(0)]);
             if cur.is_none() {
                 missing_from += 1;
             }
@@ -111,8 +129,55 @@ pub fn main() {
         let kind = op["kind"].as_str().unwrap();
         *by_kind.entry(kind.to_string()).or_default() += 1;
         let mut post = pre.clone();
+        let mut post_pm = cur_pm.clone();
+        let mut c08: Vec<String> = vec![];
         match kind {
             "issue" => {},
+            "purge" => {
+                purge_edges += 1;
+                let r = op["r"].as_u64().unwrap() as usize - 1;
+                let before = live_view(scale, &post[r], &keys);
+                let purged = post[r].purge_old_deletes();
+                if !purged.is_empty() {
+                    effective_purges += 1;
+                }
+                if live_view(scale, &post[r], &keys) != before {
+                    c08.push(format!("a purge on r{} changed what is live", r + 1));
+                }
+                for (_, ts) in &purged {
+                    let e = post_pm[r].entry(ts.node()).or_insert(*ts);
+                    if *e < *ts {
+                        *e = *ts;
+                    }
+                }
+                // "afterwards" is not only "right afterwards": whatever single operation of the universe the replica
+                // handles next, what it purged must still be refused (a real set that purges where the model does not
+                // is otherwise lost again, because real states are kept per model state)
+                if !purged.is_empty() {
+                    'look: for next_ts in universe.iter() {
+                        for next_k in &keys {
+                            for next_del in [false, true] {
+                                for s in 0..N {
+                                    let mut c = post[r].clone();
+                                    apply_one(&mut c, s, *next_k, *next_ts, next_del);
+                                    for (_, tp) in &purged {
+                                        for ts in universe.iter().filter(|t| t.node() == tp.node() && **t <= *tp) {
+                                            for k in &keys {
+                                                refused_probes += 1;
+                                                if c.will_apply(*k, *ts) {
+                                                    c08.push(format!("r{}: after purging the delete at {} and then handling {} of key {next_k} at {} through source {s}, an operation of the same node on key {k} at {} is accepted again",
+                                                                     r + 1, scale.ts_json(tp), if next_del { "a delete" } else { "an insert" }, scale.ts_json(next_ts), scale.ts_json(ts)));
+                                                    break 'look;
+                                                }
+                                            }
+                                        }
+                                    }
+                                }
+                            }
+                        }
+                    }
+                }
+            },
             "apply" => {
                 let r = op["r"].as_u64().unwrap() as usize - 1;
                 apply_one(&mut post[r], 0, op["key"].as_u64().unwrap(), scale.ts(&op["ts"]).unwrap(), op["del"].as_bool().unwrap());
@@ -141,16 +206,57 @@ pub fn main() {
             }
         }
 
+        // C08 local: what a replica purged (by the model's account or by the real set's) stays refused on it
+        for (r, set) in post.iter().enumerate() {
+            let mut bounds: Vec<(u8, HLCTimestamp)> = post_pm[r].iter().map(|(n, t)| (*n, *t)).collect();
+            for (n, pmv) in crate::model::fn_items(&e["to"]["pm"][r]) {
+                if let Some(t) = scale.ts(pmv) {
+                    bounds.push((n as u8, t));
+                }
+            }
+            bounds.sort();
+            bounds.dedup();
+            for (n, pmax) in bounds {
+                for ts in universe.iter().filter(|t| t.node() == n && **t <= pmax) {
+                    for k in &keys {
+                        refused_probes += 1;
+                        let mut bad = set.will_apply(*k, *ts);
+                        for s in 0..N {
+                            let mut c = set.clone();
+                            bad = bad || c.insert_with_source(s, *k, *ts) || live_view(scale, &c, &keys) != live_view(scale, set, &keys);
+                            let mut c = set.clone();
+                            bad = bad || c.delete_with_source(s, *k, *ts) || live_view(scale, &c, &keys) != live_view(scale, set, &keys);
+                        }
+                        if bad && c08.len() < 4 {
+                            c08.push(format!("r{} accepts an operation of node {n} on key {k} at {} although it purged that node's delete at {}",
+                                             r + 1, scale.ts_json(ts), scale.ts_json(&pmax)));
+                        }
+                    }
+                }
+            }
+        }
+        if !c08.is_empty() {
+            sum.violation(json!({"property": "C08", "why": c08, "edge": e, "from_key": cur_key}));
+        }
+
         if states.contains_key(&to_key) {
+            return;
+        }
+        if no_laws {
+            parents.insert(to_key.clone(), (cur_key.clone(), op.clone()));
+            if post_pm.iter().any(|m| !m.is_empty()) {
+                real_pm.insert(to_key.clone(), post_pm);
+            }
+            states.insert(to_key, post);
             return;
         }
         // laws are state predicates: evaluated once per distinct state, on the real sets
         law_evals += 1;
         let n = post.len();
-        let live = |s: &Set| live_view(scale, s, &keys);
+        let live = |s: &OrSWotSet<N>| live_view(scale, s, &keys);
         let mut c03: Vec<String> = vec![];
         let mut c05: Vec<String> = vec![];
-        let m: Vec<Vec<Set>> = (0..n).map(|i| (0..n).map(|j| merged(&post[i], &post[j])).collect()).collect();
+        let m: Vec<Vec<OrSWotSet<N>>> = (0..n).map(|i| (0..n).map(|j| merged(&post[i], &post[j])).collect()).collect();
         for i in 0..n {
             if live(&m[i][i]) != live(&post[i]) {
                 c03.push(format!("merge(r{0}, r{0}) changes lookups", i + 1));
@@ -214,6 +320,9 @@ pub fn main() {
             sum.sample(json!({"op": op, "replicas_live": lives, "diffs_expected": e["diffs"]}));
         }
         parents.insert(to_key.clone(), (cur_key.clone(), op.clone()));
+        if post_pm.iter().any(|m| !m.is_empty()) {
+            real_pm.insert(to_key.clone(), post_pm);
+        }
         states.insert(to_key, post);
     });
 
@@ -235,6 +344,9 @@ pub fn main() {
     sum.set("law_evaluations", law_evals);
     sum.set("nonempty_diffs", nonempty_diffs);
     sum.set("by_kind", json!(by_kind));
+    sum.set("purge_edges", purge_edges);
+    sum.set("effective_purges", effective_purges);
+    sum.set("refused_probes", refused_probes);
     sum.write(&out);
     if missing_from > 0 {
         std::process::exit(2);
